@@ -59,6 +59,53 @@ def kg_snapshot(kg):
     return {"min": kg.minTimestamp, "max": kg.maxTimestamp, "tiers": tiers}
 
 
+def insert_subtier(kg, ins):
+    """ins = [container, intermediate, serial, index seed]: adds a sub point tier to that intermediate tier at an index"""
+    from praatio.data_classes.klattgrid import KlattSubPointTier
+
+    try:
+        cont = kg._tierDict[ins[0]]
+        kit = cont.tierDict[ins[1]]
+        idx = ins[3] % (len(kit.tierNameList) + 1)
+        name = "%s [x%d]" % (kit.name, ins[2])
+        kit.addTier(KlattSubPointTier(name, [(0.25, 1800.0 + ins[2]), (0.5, 1750.125)], kit.minTimestamp or 0, kit.maxTimestamp or 1.0),
+                    idx if idx < len(kit.tierNameList) else None)
+        REC.cls("C19:subtier-inserted-at-index")
+        _current["inserted"] = [cont.name, kit.name, name]
+    except Exception as e:
+        REC.note("sub-tier insertion failed: %s" % type(e).__name__)
+
+
+def rebuild_kg(s, inserted=None):
+    """a Klattgrid assembled through the API from a snapshot; a sub-tier named in *inserted* ([container, intermediate, name]) is
+    added last, at the index the snapshot shows it at - the way the workload produced it"""
+    from praatio.data_classes.klattgrid import Klattgrid, KlattContainerTier, KlattIntermediateTier, KlattPointTier, KlattSubPointTier
+
+    kg = Klattgrid(s["min"], s["max"])
+    for t in s["tiers"]:
+        if "inter" not in t:
+            kg.addTier(KlattPointTier(t["name"], [tuple(e) for e in t["entries"]], t["min"], t["max"]))
+            continue
+        cont = KlattContainerTier(t["name"])
+        cont.minTimestamp, cont.maxTimestamp = t["min"], t["max"]
+        for it in t["inter"]:
+            kit = KlattIntermediateTier(it["name"])
+            late = None
+            for i, st in enumerate(it["subs"]):
+                sub = KlattSubPointTier(st["name"], [tuple(e) for e in st["entries"]], st["min"], st["max"])
+                if inserted and [t["name"], it["name"], st["name"]] == list(inserted):
+                    late = (sub, i)
+                else:
+                    kit.addTier(sub)
+            if late:
+                kit.addTier(late[0], late[1] if late[1] < len(kit.tierNameList) else None)
+            cont.addTier(kit)
+        cont.minTimestamp, cont.maxTimestamp = t["min"], t["max"]
+        kg.addTier(cont)
+    kg.minTimestamp, kg.maxTimestamp = s["min"], s["max"]
+    return kg
+
+
 def flatten(s):
     """the number/flag stream a snapshot encodes, in file order"""
     out = [("n", s["min"]), ("n", s["max"])]
@@ -159,7 +206,8 @@ def _save_post(ctx):
     s, fn = ctx.pre
     sig = _current["sig"] or ("kg.save",)
     sig = ("save",) + tuple(sig)
-    case = {"call": "kg.save", "snapshot": s if sum(len(t.get("entries", [])) for t in s["tiers"]) < 200 else None}
+    case = {"call": "kg.save", "snapshot": s if sum(len(t.get("entries", [])) for t in s["tiers"]) < 200 else None,
+            "inserted": _current.get("inserted")}
     mech = {"op": "kg.save", "exc": type(ctx.exc).__name__ if ctx.exc else None}
     REC.outcome("kg.save", ctx.exc)
     if ctx.exc is not None:
@@ -424,33 +472,27 @@ def _workload(tier, rng, shard, nshards, work):
         if kg is None:
             continue
         out = os.path.join(str(work), "out%d.KlattGrid" % (k % 3))
+        ins = None
         if k % 4 == 1:
             # a sub-tier added through the API at a position other than the end: the hierarchy in memory is what has to be written
-            from praatio.data_classes.klattgrid import KlattSubPointTier
-
-            try:
-                cont = kg._tierDict[rng.choice(["oral_formants", "frication_formants"])]
-                kit = cont.tierDict[rng.choice(["formants", "bandwidths"])]
-                idx = rng.randrange(0, len(kit.tierNameList) + 1)
-                kit.addTier(KlattSubPointTier("%s [x%d]" % (kit.name, k), [(0.25, 1800.0 + k), (0.5, 1750.125)], kit.minTimestamp or 0, kit.maxTimestamp or 1.0),
-                            idx if idx < len(kit.tierNameList) else None)
-                REC.cls("C19:subtier-inserted-at-index")
-            except Exception as e:
-                REC.note("sub-tier insertion failed: %s" % type(e).__name__)
-        if call(lambda: (kg.save(out), True)[1]):
+            ins = [rng.choice(["oral_formants", "frication_formants"]), rng.choice(["formants", "bandwidths"]), k, rng.randrange(0, 12)]
+            insert_subtier(kg, ins)
+        saved = call(lambda: (kg.save(out), True)[1])
+        _current["inserted"] = None
+        if saved:
             _current.update(classes=["C19:praatio-style-no-trailing-blank"], sig=("resaved", nform))
             kg2 = call(klattgrid.openKlattgrid, out)
             if kg2 is not None:
                 a, b = kg_snapshot(kg), kg_snapshot(kg2)
                 why = stream_diff(flatten(b), flatten(a))
                 if why:
-                    REC.violation(PROP, "kg.reopen", "open;save;open", {"call": "kg.reopen", "file": text}, "second open (left) differs from the first (right): %s" % why, ("reopen", nform), {"op": "kg.reopen"})
+                    REC.violation(PROP, "kg.reopen", "open;save;open", {"call": "kg.reopen", "file": text, "ins": ins}, "second open (left) differs from the first (right): %s" % why, ("reopen", nform), {"op": "kg.reopen"})
                 else:
                     REC.held("kg.reopen", ("reopen", blank, nform), None, None)
                 # unmodified grid: saving again reproduces the text
                 out2 = os.path.join(str(work), "out_b.KlattGrid")
                 if call(lambda: (kg2.save(out2), True)[1]) and open(out, "rb").read() != open(out2, "rb").read():
-                    REC.violation(PROP, "kg.reopen", "save;open;save", {"call": "kg.reopen", "file": text}, "re-saving the unmodified reopened grid changed the text", ("resave",), {"op": "kg.resave"})
+                    REC.violation(PROP, "kg.reopen", "save;open;save", {"call": "kg.reopen", "file": text, "ins": ins}, "re-saving the unmodified reopened grid changed the text", ("resave",), {"op": "kg.resave"})
                 kg = kg2
         fname = rng.choice(sorted(FUNCS))
         container, inter = rng.choice([("oral_formants", "formants"), ("oral_formants", "bandwidths"), ("oral_formants", "bandwidths"), ("frication_formants", "formants"),
@@ -554,7 +596,10 @@ def replay(v, work):
             kg = call(klattgrid.openKlattgrid, fn)
             if kg is not None and c["call"] == "kg.reopen":
                 out = os.path.join(str(work), "replay_out.KlattGrid")
+                if c.get("ins"):
+                    insert_subtier(kg, c["ins"])
                 call(kg.save, out)
+                _current["inserted"] = None
                 kg2 = call(klattgrid.openKlattgrid, out)
                 if kg2 is not None:
                     why = stream_diff(flatten(kg_snapshot(kg2)), flatten(kg_snapshot(kg)))
@@ -571,6 +616,8 @@ def replay(v, work):
                 with open(fn, "w", encoding="utf-8") as fd:
                     fd.write(K.write_point_object(c["klass"], c["lo"], c["hi"], [tuple(p) for p in c["pts"]], lf))
                 call(data_points.open1DPointObject if c["klass"] == "PointProcess" else data_points.open2DPointObject, fn)
+        elif c["call"] == "kg.save" and c.get("snapshot"):
+            call(rebuild_kg(c["snapshot"], c.get("inserted")).save, os.path.join(str(work), "replay_out.KlattGrid"))
         elif c["call"] == "kg.modify":
             # rebuild the grid as a file from its snapshot is not possible in general: re-run on the reference file
             repo = os.environ.get("PRAATIO_REPO", "/repo")
